@@ -618,17 +618,17 @@ marginalize_h!(marginalize_2x1x2x1x3_rm0132, 5, 12, 4, 1, 3, [2, 1, 2, 1, 3], [0
 // @harness props=C04 tier=quick group=f64 bounds=shape=[2,1,2,1,3],remove=[4,3,1,0](in-this-order),cells=0..7 timeout=1200
 marginalize_h!(marginalize_2x1x2x1x3_rm4310, 5, 12, 4, 1, 2, [2, 1, 2, 1, 3], [4, 3, 1, 0], 15);
 
-// @harness props=C04 tier=quick group=f64 bounds=shape=[2,1,2,1,3],remove=[3,4,0,1](in-this-order),cells=0..7 timeout=1200
-marginalize_h!(marginalize_2x1x2x1x3_rm3401, 5, 12, 4, 1, 2, [2, 1, 2, 1, 3], [3, 4, 0, 1], 15);
-
-// @harness props=C04 tier=quick group=f64 bounds=shape=[2,1,2,1,3],remove=[1,0,3,4](in-this-order),cells=0..7 timeout=1200
-marginalize_h!(marginalize_2x1x2x1x3_rm1034, 5, 12, 4, 1, 2, [2, 1, 2, 1, 3], [1, 0, 3, 4], 15);
-
-// @harness props=C04 tier=quick group=f64 bounds=shape=[2,1,2,1,3],remove=[0,1,2,3](in-this-order),cells=0..7 timeout=1200
-marginalize_h!(marginalize_2x1x2x1x3_rm0123, 5, 12, 4, 1, 3, [2, 1, 2, 1, 3], [0, 1, 2, 3], 15);
-
 // @harness props=C04 tier=quick group=f64 bounds=shape=[2,1,2,1,3],remove=[2,4,1,3](in-this-order),cells=0..7 timeout=1200
 marginalize_h!(marginalize_2x1x2x1x3_rm2413, 5, 12, 4, 1, 2, [2, 1, 2, 1, 3], [2, 4, 1, 3], 15);
+
+// @harness props=C04 tier=thorough group=f64 bounds=shape=[2,1,2,1,3],remove=[3,4,0,1](in-this-order),cells=0..7 timeout=1200
+marginalize_h!(marginalize_2x1x2x1x3_rm3401, 5, 12, 4, 1, 2, [2, 1, 2, 1, 3], [3, 4, 0, 1], 15);
+
+// @harness props=C04 tier=thorough group=f64 bounds=shape=[2,1,2,1,3],remove=[1,0,3,4](in-this-order),cells=0..7 timeout=1200
+marginalize_h!(marginalize_2x1x2x1x3_rm1034, 5, 12, 4, 1, 2, [2, 1, 2, 1, 3], [1, 0, 3, 4], 15);
+
+// @harness props=C04 tier=thorough group=f64 bounds=shape=[2,1,2,1,3],remove=[0,1,2,3](in-this-order),cells=0..7 timeout=1200
+marginalize_h!(marginalize_2x1x2x1x3_rm0123, 5, 12, 4, 1, 3, [2, 1, 2, 1, 3], [0, 1, 2, 3], 15);
 
 //@@END MARGINALIZE_CASES@@
 
